@@ -5,12 +5,16 @@ from __future__ import annotations
 import struct
 
 
-def build_pe(sections=((0x200, 0x200),), e_lfanew=0x40, fill=b"\xcc", pe32plus=False, trailing=b"", max_len=1 << 16, num_dirs=16) -> tuple[bytes, int]:
+def build_pe(sections=((0x200, 0x200),), e_lfanew=0x40, fill=b"\xcc", pe32plus=False, trailing=b"", max_len=1 << 16, num_dirs=16, dos_rng=None) -> tuple[bytes, int]:
     """sections: ((PointerToRawData, SizeOfRawData), ...). Returns (image, true size)
     where true size = max(ptr + size) (what the library documents as the end of the file)."""
     dos = bytearray(b"MZ" + b"\x00" * 0x3E)
     struct.pack_into("<I", dos, 0x3C, e_lfanew)
     dos += b"\x00" * (e_lfanew - len(dos))
+    if dos_rng is not None:
+        # the DOS header fields other than e_magic / e_lfanew and the DOS stub are free: any bytes, line feeds included
+        for i in list(range(2, 0x3C)) + list(range(0x40, e_lfanew)):
+            dos[i] = dos_rng.choice([0x0A, 0x0D, 0x00, 0xFF, 0x4D, 0x5A]) if dos_rng.random() < 0.3 else dos_rng.randrange(256)
     nsec = len(sections)
     opt_size = (112 if pe32plus else 96) + 8 * num_dirs
     coff = struct.pack("<HHIIIHH", 0x8664 if pe32plus else 0x14C, nsec, 0, 0, 0, opt_size, 0x0102)
@@ -59,6 +63,11 @@ def valid_images(r):
     for nd in (0, 1, 4, 5, 15):
         out.append(build_pe(((0x200, 0x200),), num_dirs=nd))
     out.append(build_pe(((0x200, 0x400),), pe32plus=True, num_dirs=2))
+    # free-form DOS headers / stubs, header offsets whose bytes include a line feed
+    out.append(build_pe(((0x200, 0x200),), dos_rng=r))
+    out.append(build_pe(((0x400, 0x200), (0x200, 0x200)), e_lfanew=0x10A, dos_rng=r))
+    out.append(build_pe(((0x200, 0x400),), e_lfanew=0x0A * 8, dos_rng=r))
+    out.append(build_pe(((0x200, 0x200),), e_lfanew=0xC8, dos_rng=r, pe32plus=True))
     return out
 
 
